@@ -66,14 +66,14 @@ func UnquoteMultiline(s string) (t string, err error) {
 		return "", ErrSyntax
 	}
 
-	if n == 6 {
-		return "", nil
-	}
-
 	for i := 0; i < 3; i++ {
 		if s[i] != s[n-(i+1)] {
 			return "", ErrSyntax
 		}
+	}
+
+	if n == 6 {
+		return "", nil
 	}
 
 	quote := s[0]
